@@ -78,6 +78,7 @@ type lexer struct {
 	comments []*ast.Comment
 	cmdSubst rune
 	token    chan ast.Node
+	next     chan struct{}
 	done     chan struct{}
 
 	mu     sync.Mutex
@@ -105,6 +106,8 @@ func newLexer(env *interp.ExecEnv, name string, r io.RuneScanner) *lexer {
 		name:    name,
 		r:       r,
 		token:   make(chan ast.Node),
+		next:    make(chan struct{}),
+		done:    make(chan struct{}),
 		cancel:  make(chan struct{}),
 		heredoc: heredoc{c: make(chan struct{}, 1)},
 		line:    1,
@@ -118,6 +121,11 @@ func newLexer(env *interp.ExecEnv, name string, r io.RuneScanner) *lexer {
 
 func (l *lexer) Lex(lval *yySymType) int {
 	verifYield(verifPreRecv, l)
+	// request the next token
+	select {
+	case l.next <- struct{}{}:
+	case <-l.done:
+	}
 	switch tok := (<-l.token).(type) {
 	case token:
 		verifYield(verifPostRecv, l)
@@ -139,9 +147,7 @@ func (l *lexer) run() {
 	defer func() {
 		verifYield(verifTerminal, l)
 		close(l.token)
-		if l.done != nil {
-			close(l.done)
-		}
+		close(l.done)
 
 		if e := recover(); e != nil {
 			if _, ok := e.(bailout); !ok {
@@ -151,6 +157,7 @@ func (l *lexer) run() {
 		}
 	}()
 
+	l.wait()
 	for action := l.lexPipeline; action != nil; {
 		action = action()
 	}
@@ -648,8 +655,8 @@ func (l *lexer) lexToken(tok int) action {
 		}
 	case ')', RAE:
 		if l.cmdSubst != 0 && len(l.stack) == 1 {
-			l.emit(tok)
 			l.stack = nil
+			l.emit(tok)
 			break
 		}
 		fallthrough
@@ -1454,6 +1461,7 @@ func (l *lexer) scanCmdSubst(r rune) bool {
 			r:        l.r,
 			cmdSubst: r,
 			token:    make(chan ast.Node),
+			next:     make(chan struct{}),
 			done:     make(chan struct{}),
 			cancel:   make(chan struct{}),
 			heredoc:  heredoc{c: make(chan struct{}, 1)},
@@ -1466,7 +1474,7 @@ func (l *lexer) scanCmdSubst(r rune) bool {
 		go ll.run()
 		yyParse(ll)
 		verifYield(verifPreJoin, ll)
-		<-ll.done
+		ll.stop()
 		verifYield(verifPostJoin, ll)
 		if ll.err != nil {
 			l.mu.Lock()
@@ -1610,6 +1618,7 @@ func (l *lexer) emit(typ int) {
 		l.token <- tok
 		verifYield(verifPostSend, l)
 		l.mark(0)
+		l.wait()
 		return
 	case verifForceBail:
 		<-l.cancel
@@ -1625,6 +1634,34 @@ func (l *lexer) emit(typ int) {
 		panic(bailout{})
 	}
 	l.mark(0)
+	l.wait()
+}
+
+// wait blocks until the parser requests the next token, so that the
+// lexer never reads ahead of the parser.
+func (l *lexer) wait() {
+	select {
+	case <-l.next:
+		select {
+		case <-l.cancel:
+			panic(bailout{})
+		default:
+		}
+	case <-l.cancel:
+		panic(bailout{})
+	}
+}
+
+// stop cancels lexing and waits for the lexer goroutine to finish.
+func (l *lexer) stop() {
+	l.mu.Lock()
+	select {
+	case <-l.cancel:
+	default:
+		close(l.cancel)
+	}
+	l.mu.Unlock()
+	<-l.done
 }
 
 func (l *lexer) mark(off int) {
